@@ -481,3 +481,16 @@ func NumRisk(e hclsyntax.Expression, ctx *hcl.EvalContext) int {
 	}
 	return risk
 }
+
+// CoqTraversals renders a list of absolute traversals as list (list Z * list step).
+func CoqTraversals(ts []hcl.Traversal, info *ValInfo) string {
+	var parts []string
+	for _, t := range ts {
+		if t.IsRelative() {
+			info.Unsupported = true
+			continue
+		}
+		parts = append(parts, "("+CoqStr(t.RootName())+", "+coqSteps(t[1:], info)+")")
+	}
+	return CoqList(parts)
+}
